@@ -213,13 +213,16 @@ var r131 = []cellOb{
 	{"S|C", "caseMatchNothing", []string{"create"}, "subscribe-or-create of a new key creates"},
 	{"S|C", "caseAllMatchedNotSubscribed", []string{"subscribe"}, "subscribe-or-create of an existing key subscribes"},
 	{"S|C", "caseMatchKeyNotType", []string{"error"}, "subscribe-or-create with another datatype type must be refused"},
+	{"C", "caseAllMatchedSubscribed", []string{"proceed"}, "the retry of a create that was already committed (response lost) must go on as a normal push-pull"},
+	{"S", "caseAllMatchedSubscribed", []string{"proceed"}, "the retry of a subscribe that was already committed must go on as a normal push-pull"},
+	{"S|C", "caseAllMatchedSubscribed", []string{"proceed"}, "the retry of a subscribe-or-create that was already committed must go on as a normal push-pull"},
 	{"S|C", "caseUsedDUID", []string{"create", "error"}, "the key does not exist here and the DUID belongs to another datatype: create under a new DUID or refuse, never attach to the foreign datatype"},
 }
 
 // R13.1 the dispatch table against the contract
 func ruleR13_1(w *World, r *Report) {
 	u := w.Server()
-	r.Rule("R13.1", "the (option bits, case) dispatch table of processSubscribeOrCreate gives the outcomes the contract fixes: create-only with an existing key, subscribe-only without the key and any use with a different type are refused; subscribe-or-create creates a new key and subscribes to an existing one", 12)
+	r.Rule("R13.1", "the (option bits, case) dispatch table of processSubscribeOrCreate gives the outcomes the contract fixes: create-only with an existing key, subscribe-only without the key and any use with a different type are refused; subscribe-or-create creates a new key and subscribes to an existing one; a repeated request of an already subscribed client proceeds", 15)
 	table, pos, _, ok := dispatchTable(u)
 	if !ok {
 		r.Undecided("processSubscribeOrCreate/table", "", "the if-chain over (subscribe&&create, subscribe, create) with a switch over the case was not recognised")
